@@ -30,8 +30,10 @@ ASSUMPTIONS = [
     'in-process gemato.cli.main with a log-capturing root handler; argparse exits are SystemExit',
     'an escaping OSError is "genuine" iff re-issuing open/stat/scandir on exc.filename fails with the same errno',
     'DONT_CARE: the deliberate NotImplementedError for a now-ignored path with an old parent entry; corrupt '
-    'compressed streams (not UTF-8 Manifest text) - recognised from the input tree (a file named Manifest.<format> '
-    'that does not decompress), not from where the exception was raised',
+    'compressed streams / non-UTF-8 content of a Manifest IN USE (not UTF-8 Manifest text) - recognised from the input '
+    'tree: the top-level Manifest, files MANIFEST entries refer to, files named Manifest* at or above the directory the '
+    'command is run on, and - with an ebuild profile, which places Manifests by directory - any file named Manifest*; a '
+    'damaged or binary file merely NAMED like a Manifest that nothing refers to is an odd file of the tree and is judged',
     'family X: gemato.openpgp.subprocess replaced by a shim whose processes answer from the case; status lines are '
     'well-formed GnuPG status lines, only exit status and the bytes on stderr vary; library exceptions are fine, '
     'anything else escaping is an internal error',
@@ -57,9 +59,9 @@ def attributable(o):
     return False
 
 
-def classify(o, corrupt_input=False):
-    """-> (class, violation-sig or None).  corrupt_input: the tree holds a file named Manifest.<format> whose
-    compressed stream does not decompress (decided from the input, not from where the exception came from)."""
+def classify(o, corrupt_input=()):
+    """-> (class, violation-sig or None).  corrupt_input: exception names excused by unreadable_manifests()
+    (decided from the input, not from where the exception came from)."""
     if o['kind'] == 'ret':
         v = o['value']
         if v in (0, None):
@@ -74,7 +76,7 @@ def classify(o, corrupt_input=False):
     if o.get('class') == 'gemato':
         return 'gemato_escaped', {'check': 'library_exception_escaped_main', 'exc': o['exc']}
     if o.get('class') == 'oserror':
-        if o.get('errno') is None and o['exc'] in ('OSError', 'BadGzipFile'):
+        if o.get('errno') is None and o['exc'] in ('OSError', 'BadGzipFile') and corrupt_input:
             return 'corrupt_compressed_manifest', None      # bz2/gzip report bad data as errno-less OSError
         if attributable(o):
             return 'oserror_genuine', None
@@ -82,22 +84,62 @@ def classify(o, corrupt_input=False):
                                           'errno': o.get('errno')}
     if o['exc'] == 'NotImplementedError' and 'now-ignored' in (o.get('msg') or ''):
         return 'notimplemented_deliberate', None
-    if o['exc'] in ('EOFError', 'BadGzipFile', 'LZMAError') and corrupt_input:
-        # a Manifest whose compressed stream is corrupt is in the tree: not "UTF-8 Manifest text"
+    if o['exc'] in (corrupt_input or ()):
+        # a Manifest in use is a damaged compressed stream or not UTF-8: not "UTF-8 Manifest text"
         return 'corrupt_compressed_manifest', None
     return 'internal', {'check': 'internal_error', 'exc': o['exc'], 'where': o.get('where')}
 
 
-def has_corrupt_compressed_manifest(tree_json):
+def unreadable_manifests(tree_json, target='', profile_places_manifests=False):
+    """-> set of exception names excused because a Manifest IN USE is not 'UTF-8 Manifest text': a file that a MANIFEST
+    entry refers to, the top-level Manifest, or a file named Manifest* in the target directory of the command or
+    above it (a candidate top-level Manifest for discovery) that is a damaged compressed stream or not UTF-8.  A
+    damaged file merely NAMED like a Manifest that nothing refers to is just an odd file of the tree, and the
+    statement covers any tree."""
     from gverif.treemodel import comp_of, decompress
-    for p, d in tree_json['files'].items():
+    files = tree_json['files']
+    corrupt, binary, referenced = set(), set(), {TOP}
+    if profile_places_manifests:
+        # the ebuild profiles decide by directory where Manifests live: a file occupying such a name is in use
+        referenced |= {p for p in files if os.path.basename(p).startswith('Manifest')}
+    d = target
+    while True:
+        for p in files:
+            if os.path.dirname(p) == d and os.path.basename(p).startswith('Manifest'):
+                referenced.add(p)
+        if not d:
+            break
+        d = os.path.dirname(d)
+    for p, data in files.items():
         b = os.path.basename(p)
-        if b.startswith('Manifest') and comp_of(b) and isinstance(d, bytes):
-            try:
-                decompress(d, comp_of(b))
-            except Exception:          # noqa: BLE001
-                return True
-    return False
+        if not (b.startswith('Manifest') and isinstance(data, bytes)):
+            continue
+        try:
+            text = decompress(data, comp_of(b)) if comp_of(b) else data
+        except Exception:          # noqa: BLE001
+            corrupt.add(p)
+            continue
+        try:
+            text.decode('utf8')
+        except UnicodeDecodeError:
+            binary.add(p)
+        for ln in text.split(b'\n'):
+            f = ln.split()
+            if len(f) >= 2 and f[0] == b'MANIFEST':
+                try:
+                    rel = f[1].decode('utf8')
+                    from gverif import refmanifest as _rm
+                    u = _rm.unescape_path(rel)
+                    rel = u[1] if isinstance(u, tuple) and isinstance(u[1], str) else rel
+                except Exception:          # noqa: BLE001
+                    continue
+                referenced.add(os.path.normpath(os.path.join(os.path.dirname(p), rel)))
+    out = set()
+    if corrupt & referenced:
+        out |= {'EOFError', 'BadGzipFile', 'LZMAError', 'error'}
+    if binary & referenced:
+        out.add('UnicodeDecodeError')
+    return out
 
 
 def commands(root, tree_json, what):
@@ -126,7 +168,8 @@ def run_cmds(case, scratch, stats=None):
             c03.apply_edit_disk(root, pre)
         argv = [a.replace('{root}', root) for a in argv]
         o = gem.cli(argv)
-        cls, sig = classify(o, has_corrupt_compressed_manifest(case['tree']))
+        prof = argv[argv.index('-p') + 1] if '-p' in argv else 'default'
+        cls, sig = classify(o, unreadable_manifests(case['tree'], argv[-1][len(root):].strip('/'), prof != 'default'))
         if stats is not None:
             stats.evaluations += 1
             stats.transitions += 1
@@ -293,6 +336,23 @@ def odd_corners():
     yield 'unreferenced_sub_manifest_deep', mk(flat, raw={'d/e/Manifest': b'DATA f2 4\n'})
     yield 'unreferenced_sub_manifest_two', mk(flat, raw={'d/Manifest': b'DATA f1 3\n', 'd/e/Manifest.gz':
                                                        __import__('gzip').compress(b'DATA f2 4\n', mtime=0)})
+    # files NAMED like a compressed Manifest that nothing refers to and that are damaged in every way a stream can be
+    import bz2 as _bz2, gzip as _gzip, lzma as _lzma
+    good = {'gz': _gzip.compress(b'DATA f1 3\n' * 40, mtime=0), 'bz2': _bz2.compress(b'DATA f1 3\n' * 40),
+            'xz': _lzma.compress(b'DATA f1 3\n' * 40, format=_lzma.FORMAT_XZ),
+            'lzma': _lzma.compress(b'DATA f1 3\n' * 40, format=_lzma.FORMAT_ALONE)}
+    for fmt, g in good.items():
+        body = bytearray(g)
+        for i in range(len(body) // 2, min(len(body) // 2 + 8, len(body))):
+            body[i] ^= 0xFF
+        damage = {'empty': b'', 'garbage': b'this is not a stream\n', 'header_only': g[:6], 'truncated': g[:-5],
+                  'body_damaged': bytes(body), 'trailing_garbage': g + b'XYZ', 'not_utf8': None}
+        for kind, data in damage.items():
+            if data is None:
+                import gverif.treemodel as _tm
+                data = _tm.compress(b'DATA f\xff 3\n', fmt)
+            yield f'unreg_damaged_{fmt}_{kind}', mk(flat, raw={f'd/Manifest.{fmt}': data})
+    yield 'unreg_not_utf8_plain', mk(flat, raw={'d/Manifest': b'DATA f\xff 3\n'})
     yield 'unregistered_beside_top', mk(flat, raw={'Manifest.gz': __import__('gzip').compress(b'', mtime=0)})
     yield 'unregistered_beside_top_entries', mk(flat, raw={'Manifest.bz2': __import__('bz2').compress(b'DATA f0 4\n')})
     yield 'aux_outside_files', mk(flat + [('L', 'AUX nothing 0')])
